@@ -1,2 +1,63 @@
-(* C01 -- placeholder until the theorems are stated; see DESIGN.md *)
-From NV Require Import Model.Matcher Spec.Matching.
+(* C01 -- Fuzzy matching decides exactly the normalized-subsequence relation.
+   Statements live in Spec/Statements.v; proofs in Proofs/C01Facts.v.  Quantification: every
+   configuration (any bonus values, delimiter set, ignore_case, normalize, prefer_prefix), every
+   haystack and every already-normalised needle (any length: the u16 / matrix limits only select the
+   branch), every representation pair except the known finding K1 (haystack bytes, needle code points).
+   PARTIAL for the optimal entry point: C01_fuzzy_reject shows it rejects exactly the non-subsequences;
+   that its accepting runs end in Match rather than in a panic is C10's claim (validated by the
+   correspondence, the DP index arithmetic is not yet proved panic-free). *)
+From Coq Require Import NArith List Bool.
+From NV Require Import Model.Matcher Spec.Matching Spec.Statements Proofs.C01Facts.
+Import ListNotations.
+Local Open Scope N_scope.
+
+Theorem C01_subseq_spec : subseq_b_spec_stmt.
+Proof. exact C01Facts.subseq_b_spec. Qed.
+
+Theorem C01_greedy_decision : C01_greedy_decision_stmt.
+Proof. exact C01Facts.C01_greedy_decision. Qed.
+
+Theorem C01_fuzzy_reject : C01_fuzzy_reject_stmt.
+Proof. exact C01Facts.C01_fuzzy_reject. Qed.
+
+Theorem C01_repr_indep : C01_repr_indep_stmt.
+Proof. exact C01Facts.C01_repr_indep. Qed.
+
+(* the optimal and the greedy entry points reject the same inputs *)
+Theorem C01_entry_points_agree :
+  forall cfg hs ns, wf_str hs -> wf_str ns -> needle_ok cfg (rp ns) (cs ns) = true -> ~ known_K1 hs ns ->
+    (run cfg Fuzzy hs ns = NoMatch <-> run cfg FuzzyGreedy hs ns = NoMatch).
+Proof.
+  intros cfg hs ns Hh Hn Hok HK.
+  pose proof (C01Facts.C01_greedy_decision cfg hs ns Hh Hn Hok HK) as G.
+  pose proof (C01Facts.C01_fuzzy_reject cfg hs ns Hh Hn Hok HK) as F.
+  rewrite F. destruct (run cfg FuzzyGreedy hs ns) eqn:E.
+  - split; [reflexivity | intros _; exact G].
+  - split; [intros H; rewrite G in H; discriminate | discriminate].
+  - contradiction.
+Qed.
+
+(* the known finding is real in the model too: an all-ASCII needle held as code points is rejected
+   against a byte haystack that contains it *)
+Theorem C01_K1_refuted :
+  exists cfg hs ns, known_K1 hs ns /\ normalised_subseq cfg hs ns = true /\ run cfg FuzzyGreedy hs ns = NoMatch.
+Proof.
+  exists (config_of preset_default true true false), {| rp := Ascii; cs := [97; 98; 99] |}, {| rp := Unicode; cs := [97; 99] |}.
+  vm_compute. repeat split; reflexivity.
+Qed.
+
+(* non-vacuity: a non-trivial input meets the hypotheses and takes the matching branch *)
+Example C01_nonvacuous :
+  let cfg := config_of preset_default true true false in
+  let hs := {| rp := Unicode; cs := [102; 246; 246; 47; 66; 228; 114] |} in     (* "föö/Bär" *)
+  let ns := {| rp := Ascii; cs := [102; 98; 114] |} in                           (* "fbr" *)
+  needle_ok cfg (rp ns) (cs ns) = true /\ ~ known_K1 hs ns /\ normalised_subseq cfg hs ns = true /\
+  is_some_match (run cfg FuzzyGreedy hs ns) = true /\ is_some_match (run cfg Fuzzy hs ns) = true.
+Proof. vm_compute. repeat split; try reflexivity. intros [H _]; discriminate. Qed.
+
+Print Assumptions C01_subseq_spec.
+Print Assumptions C01_greedy_decision.
+Print Assumptions C01_fuzzy_reject.
+Print Assumptions C01_repr_indep.
+Print Assumptions C01_entry_points_agree.
+Print Assumptions C01_K1_refuted.
